@@ -715,6 +715,13 @@ class Gen:
             guard = self.chance(0.7)
         return [("ite", self.bool_expr(env, 1), [st], [])] if guard else [st]
 
+    def label_pos(self, body):
+        """a position where a label may be inserted: never between a loop counter's initialisation and its loop"""
+        ok = [i for i in range(len(body) + 1)
+              if not (0 < i < len(body) and body[i][0] in ("while", "dowhile") and body[i - 1][0] == "assign"
+                      and body[i - 1][1][0] == "var" and body[i - 1][1][2].startswith("c"))]
+        return self.rng.choice(ok)
+
     # ---- threads
     def thread_body(self, th, callees, is_main):
         r = self.rng
@@ -780,7 +787,7 @@ class Gen:
         if "goto" in self.f and self.chance(0.35):
             lab = self.fresh("L")
             g = ("var", "local", self.fresh("g"))
-            pos = r.randint(0, len(body))
+            pos = self.label_pos(body)
             tail = self.stmts(env, r.randint(1, 2), 1)
             body = body[:pos] + [("assign", ("var", g[1], g[2]), ("int", 0)), ("label", lab, [])] + body[pos:] + tail + [
                 ("incr", ("var", g[1], g[2])),
@@ -788,7 +795,7 @@ class Gen:
             self.cost *= 3
         if "goto" in self.f and self.chance(0.25):
             lab = self.fresh("L")
-            pos = r.randint(0, len(body))
+            pos = self.label_pos(body)
             skipped = self.stmts(env, r.randint(1, 2), 1)
             body = body[:pos] + [("ite", self.bool_expr(env, 1), [("goto", lab)], [])] + skipped + [("label", lab, [])] + body[pos:]
         end_e = None
